@@ -273,3 +273,8 @@ Definition psk_sent (es : list ext) : N :=
    session cache holds a session while its Read sends the identities regardless. *)
 Definition psk_agree (s : uconn_state) (es : list ext) : bool :=
   N.of_nat (length (us_psk_ids s)) =? psk_sent es.
+
+(* the hello state at marshal time: ApplyConfig, then uLoadSession; [load] = the session controller holds an
+   initialized pre_shared_key extension (state PskExtInitialized: SetPskExtension, or a session found in the cache) *)
+Definition finish (load : bool) (es : list ext) (s : uconn_state) : uconn_state :=
+  if load then set_psk_to_uconn es s else s.
